@@ -5,9 +5,10 @@
 #   3. the demonstration fails with the change, 4. and passes without it.
 # On success copies patch.diff, demo.rs, meta.json (+ confirmation log) to /verif/seeded/<Cxx>-<k>/.
 id="$1"; k="$2"
-src=/tmp/seedwork/out-$id/$k
-wt=/tmp/seedwork/confirm-$id-$k
-log=/tmp/seedwork/confirm-$id-$k.log
+root=${SEED_ROOT:-/tmp/seedwork}; koff=${SEED_KOFF:-0}; kk=$((k+koff))
+src=$root/out-$id/$k
+wt=/tmp/seedwork/confirm-$id-$kk
+log=/tmp/seedwork/confirm-$id-$kk.log
 export CARGO_NET_OFFLINE=true CARGO_TARGET_DIR=/tmp/seedwork/confirm-target-$id
 exec >"$log" 2>&1
 set -x
@@ -28,9 +29,9 @@ fi
 cd /
 git -C /repo worktree remove --force "$wt"
 set +x
-echo "CONFIRM $id/$k crate=$crate $res"
+echo "CONFIRM $id/$kk crate=$crate $res"
 if [ "$res" = "applies=yes suite=122pass demo_with=fail demo_without=pass" ]; then
-  dst=/verif/seeded/$id-$k; mkdir -p "$dst"
+  dst=/verif/seeded/$id-$kk; mkdir -p "$dst"
   cp "$src/patch.diff" "$src/demo.rs" "$dst/"
   python3 - "$src/meta.json" "$dst/meta.json" "$res" <<'PY'
 import json,sys
